@@ -121,9 +121,15 @@ def one(task):
         return r
     prods = [(l, [("T", key_index(num, s[1])) if s[0] == "T" else s for s in rhs]) for l, rhs in gs.bnf]
     N = task["N"]
-    sim = lrtab.LRSim(T, N)
-    L = C.Lang(prods, gs.start, {i: i for i in T.term_ids}, sim.toks, sim.n, N)
-    res = sim.check(L.sentence(), timeout_ms=task.get("timeout_ms", 600000))
+    steps = 6 * N + 10
+    for attempt in range(3):
+        sim = lrtab.LRSim(T, N, steps=steps)
+        L = C.Lang(prods, gs.start, {i: i for i in T.term_ids}, sim.toks, sim.n, N)
+        res = sim.check(L.sentence(), timeout_ms=task.get("timeout_ms", 300000))
+        if res["bound_too_small"]["status"] != "sat":
+            break
+        steps *= 2          # deep unit-production chains need more reductions per token
+    r["unroll_steps"] = steps
     inv = {v: k for k, v in num.items()}
     for name, d in res.items():
         if d["status"] == "sat":
@@ -153,8 +159,8 @@ def check_main():
         if a["rc"] != 0 or not a.get("parser") or not a.get("e"):
             skipped.append({"grammar": a["grammar"], "why": "rejected by parol / generation failed or timed out (rc=%s): %s" % (a["rc"], a["out"][-120:])})
             continue
-        big = os.path.getsize(a["parser"]) > 300000
-        tasks.append({"grammar": a["grammar"], "parser": a["parser"], "e": a["e"], "N": min(N, 5) if big else N})
+        nstates = open(a["parser"], encoding="utf-8").read().count("LR1State {")
+        tasks.append({"grammar": a["grammar"], "parser": a["parser"], "e": a["e"], "N": (3 if nstates > 40 else N)})
     with cf.ProcessPoolExecutor(max_workers=12) as ex:
         res = list(ex.map(one, tasks))
     programs = disagreements = queries = 0
